@@ -49,14 +49,14 @@ func verifEnum(alphabet []byte, n int, f func([]byte)) int {
 }
 
 // Unquote(Quote(d)) == d for every d that Quote accepts; exhaustive over
-// {'>', LF, '-', ' ', 'x'} up to the bound.
+// {'>', LF, '-', ' ', 'x', CR} up to the bound.
 func TestVerifBoundedUnquoteQuote(t *testing.T) {
 	defer verifReportPanic("UnquoteQuote")
 	n := verifBound(7, 10)
 	fails := 0
 	first := ""
 	accepted := 0
-	cases := verifEnum([]byte(">\n- x"), n, func(d []byte) {
+	cases := verifEnum([]byte(">\n- x\r"), n, func(d []byte) {
 		q, err := Quote(d)
 		if err != nil {
 			return
